@@ -307,7 +307,33 @@ const MODEL_EXPRS: &[(&str, &[&str], Option<bool>, char)] = &[
     ("({p: a}).p", &["a"], Some(false), 'r'),
     ("m.k", &[], Some(false), 'r'),
     ("m.rows[0].v", &[], Some(false), 'r'),
+    ("(obj.x)", &["obj.x"], None, 'r'),
+    ("(obj).x", &["obj.x"], None, 'r'),
+    ("(obj.y).z", &["obj.y.z"], None, 'r'),
+    ("obj['y'].z", &["obj.y.z"], Some(true), 'r'),
+    ("obj.y['z']", &["obj.y.z"], Some(true), 'r'),
+    ("obj[\"x\"]", &["obj.x"], Some(true), 'r'),
+    ("list[0].v", &["list.0.v"], Some(true), 'r'),
+    ("list[1]['v']", &["list.1.v"], Some(true), 'r'),
+    ("list[n + 0].v", &["list.0.v", "list.1.v", "n"], None, 'r'),
+    ("l2[l2.length - 1]", &["l2.0", "l2.1"], None, 'r'),
+    ("l2[flag ? 0 : 1]", &["l2.0", "l2.1", "flag"], None, 'r'),
+    ("list[list.length - 1].v", &["list.0.v", "list.1.v"], None, 'r'),
+    ("(flag ? obj : o2).k", &["flag", "obj.k"], None, 'r'),
+    ("(flag ? list[0] : list[1]).v", &["flag", "list.0.v", "list.1.v"], None, 'r'),
+    ("[obj][0].x", &["obj.x"], Some(false), 'r'),
+    ("[a][0]", &["a"], Some(false), 'r'),
+    ("({o: obj}).o.x", &["obj.x"], Some(false), 'r'),
+    ("m.f(a).length", &["a"], Some(false), 'r'),
+    ("m.rows[n].v", &["n"], Some(false), 'r'),
+    ("obj[m.k]", &[], None, 'r'),
+    ("typeof a", &["a"], Some(false), 'r'),
+    ("a ?? b", &["a", "b"], Some(false), 'r'),
+    ("a && obj.x", &["a", "obj.x"], Some(false), 'r'),
     ("item.v", &["list.0.v", "list.1.v"], Some(true), 'i'),
+    ("(item).v", &["list.0.v", "list.1.v"], None, 'i'),
+    ("item.sub[index].v", &["list.0.sub.0.v"], None, 'i'),
+    ("list[index + 0].v", &["list.0.v", "list.1.v"], None, 'i'),
     ("item.sub[0].v", &["list.0.sub.0.v"], Some(true), 'i'),
     ("item['v']", &["list.0.v", "list.1.v"], Some(true), 'i'),
     ("flag ? item.v : a", &["flag", "list.0.v", "a"], Some(true), 'i'),
